@@ -350,7 +350,7 @@ def _cshape(c):
 def check_parsers(ctx):
     from odml.tools import xmlparser, dict_parser
     rec = ctx.rec
-    for c in cm.valid_pairs(0, 6):
+    for c in cm.valid_pairs(0, 12) + [(2, 100), (9, 10), (10, 100), (99, 1000), (None, 100), (100, None)]:
         rec.monitor("persist")
         rec.evaluation()
         x = xmlparser.parse_cardinality(str(c))
@@ -394,6 +394,19 @@ def run(ctx):
                         i += 1
                         if ctx.mine(i):
                             check_setter(ctx, kind, form, prev, inp, i)
+        # beyond the statement's grid: multi-digit bounds (cheap, and text/number confusions live there)
+        wide = [c for c in [(a, b) for a in (None, 2, 9, 10, 11, 100) for b in (None, 2, 9, 10, 11, 100, 1000)]
+                if cm.normal_form(c)]
+        for kind in KINDS:
+            for card in wide:
+                for fmt in ("XML", "JSON", "YAML"):
+                    i += 1
+                    if ctx.mine(i):
+                        check_persist(ctx, kind, card, fmt, sdir)
+                for n in (0, 9, 10, 11, 12):
+                    i += 1
+                    if ctx.mine(i) and kind == "val":
+                        check_report(ctx, kind, card, n, False)
         pairs = cm.valid_pairs(0, 4) + [None]
         for kind in KINDS:
             for card in pairs:
